@@ -91,7 +91,7 @@ class Prop:
     id = "C33"
     level = "exploration"
     engine = "AIO+TH (deterministic asyncio loop on the simulated clock, run as one controlled thread of the TH engine)"
-    quick_runs = 30000
+    quick_runs = 20000
     thorough_runs = 300000
     chunk = 100
     time_unit = "simulated seconds"
